@@ -47,13 +47,18 @@ def duration(eng, st, name):
 
 
 def expected_bounds(jitter_t, J, base, delay, randoms):
-    """spec from the statement: the delay follows the configured backoff and jitter"""
-    ceil_base = ops.z_ceil(base)
-    none_case = delay == z3.If(ceil_base >= 1, ceil_base, 1)
-    full_case = z3.And(delay >= 1, delay <= z3.If(ceil_base >= 1, ceil_base, 1))
-    half_lo = ops.z_ceil(base / 2)
-    half_case = z3.And(delay >= z3.If(half_lo >= 1, half_lo, 1), delay <= z3.If(ceil_base >= 1, ceil_base, 1))
-    return z3.If(jitter_t == J["NONE"], none_case, z3.If(jitter_t == J["HALF"], half_case, full_case))
+    """spec from the statement: the delay follows the configured backoff and jitter - exactly, given the random draw r in [0, 1):
+    NONE: max(1, ceil(base)); FULL: max(1, ceil(r * base)); HALF: max(1, ceil(base/2 + r * base/2)), where base is the backoff value ALREADY capped at max_delay"""
+    def m1(x):
+        c = ops.z_ceil(x)
+        return z3.If(c >= 1, c, 1)
+    none_case = delay == m1(base)
+    if not randoms:
+        return z3.And(jitter_t == J["NONE"], none_case)
+    r = randoms[0]
+    full_case = delay == m1(r * base)
+    half_case = delay == m1(base / 2 + r * (base / 2))
+    return z3.And(z3.BoolVal(len(randoms) == 1), z3.If(jitter_t == J["HALF"], half_case, z3.And(jitter_t != J["NONE"], full_case)))
 
 
 def strategy_contract(chk, prefix, which):
@@ -126,7 +131,7 @@ def _strategy_paths(chk, prefix, which, eng, strat, st1, L):
         rnd = [e.r for e in s.trace if e.kind == "random"]
         ceil_max = z3.If(max_s >= 1, max_s, 1)
         chk.prove(f"{prefix}.strategy.delay_bounds", list(s.pc) + [should_t], z3.And(delay >= 1, delay <= ceil_max, expected_bounds(jitter.t, J, base, delay, rnd)),
-                  desc="on retry: 1 <= delay <= max(1, max_delay); NONE: max(1, ceil(min(initial*rate^(n-1), max_delay))); HALF: between half of that and that; FULL: between 1 and that",
+                  desc="on retry: 1 <= delay <= max(1, max_delay), and with base = min(initial*rate^(n-1), max_delay) and the random draw r: NONE: max(1, ceil(base)); FULL: max(1, ceil(r*base)); HALF: max(1, ceil(base/2 + r*base/2))",
                   sample=f"{inner}: delay within the backoff/jitter bounds")
     return eng
 
